@@ -56,6 +56,12 @@ def is_simple(node):
     return False
 
 
+class ClassSuper:
+    def __init__(self, cls, after):
+        self.cls = cls
+        self.after = after
+
+
 class Interp:
     def __init__(self, repo=REPO, extra_paths=None):
         self.repo = repo
@@ -286,6 +292,15 @@ class Interp:
                     byval.append((v, mem))
                     cls.members[k] = mem
                 ns[k] = cls.members[k]
+        # __init_subclass__ hook (implicit classmethod) of the nearest base defining it
+        kw = {k.arg: self.ev(k.value, frame, ctx) for k in st.keywords if k.arg and k.arg != "metaclass"}
+        for b in cls.mro[1:]:
+            if "__init_subclass__" in b.ns:
+                hook = b.ns["__init_subclass__"]
+                hook = hook.func if isinstance(hook, ClassMethodVal) else hook
+                if isinstance(hook, FuncVal):
+                    self.call(hook, [cls], kw, ctx)
+                break
         v = cls
         for dec in reversed(st.decorator_list):
             d = self.ev(dec, frame, ctx)
@@ -1265,7 +1280,11 @@ class Interp:
             if fn is None or fn.owner_cls is None:
                 raise Unsupported("super() outside a method")
             first = fn.node.args.args[0].arg
-            return SuperVal(f.locals[first], fn.owner_cls)
+            target = f.locals[first]
+            if isinstance(target, ClassVal):
+                # super() inside an (implicit) classmethod: only the object-level hooks are needed
+                return ClassSuper(target, fn.owner_cls)
+            return SuperVal(target, fn.owner_cls)
         fv = self.ev(node.func, frame, ctx)
         args = self._elts(node.args, frame, ctx)
         kwargs = {}
@@ -1454,6 +1473,14 @@ class Interp:
             if sub in self.lib:
                 return self.lib[sub]
             raise Unsupported("library attribute %s.%s is not modelled" % (o.name, name))
+        if isinstance(o, ClassSuper):
+            v, owner = o.cls.lookup(name, after=o.after)
+            if v is None:
+                if name == "__init_subclass__":
+                    return Builtin("object.__init_subclass__", lambda **k: None)
+                raise_("AttributeError", "'super' object has no attribute %r" % name)
+            f = v.func if isinstance(v, (ClassMethodVal, StaticMethodVal)) else v
+            return BoundMethod(o.cls, f)
         if isinstance(o, SuperVal):
             v, owner = o.obj.cls.lookup(name, after=o.after)
             if v is None:
